@@ -364,6 +364,34 @@ static void run_pool(Rng& g, long nops, std::size_t node_size, std::size_t block
                     continue;
                 live.erase(live.begin() + long(q));
                 O->on_release(l.id, "try_deallocate");
+                if (g.chance(40))
+                { // through composable_allocator_traits with the parameters of the request; first a rejected variant
+                  // (size or alignment beyond what the pool supports): false, nothing changes, the memory stays live
+                    if (g.chance(50))
+                    {
+                        bool        big = g.chance(50);
+                        std::size_t bs = big ? ns + 1 + g.below(8) : 1 + g.below(ns), bal = big ? 1 : 32;
+                        auto        before = pool_state(*pool);
+                        bool        r = l.array ? CTr::try_deallocate_array(*pool, l.p, l.count, bs, bal)
+                                                : CTr::try_deallocate_node(*pool, l.p, bs, bal);
+                        if (r || pool_state(*pool) != before)
+                            O->fail("composable try_deallocate with a size/alignment the pool does not support was not rejected cleanly");
+                        if (l.array)
+                            emit(fmt("pool t_try_dealloc_array %zu %zu %zu %zu", R->off(l.p), l.count, bs, bal), r ? "true" : "false", pool_state(*pool));
+                        else
+                            emit(fmt("pool t_try_dealloc_node %zu %zu %zu", R->off(l.p), bs, bal), r ? "true" : "false", pool_state(*pool));
+                    }
+                    std::size_t sz = l.array ? l.size : 1 + g.below(ns);
+                    bool        ok2 = l.array ? CTr::try_deallocate_array(*pool, l.p, l.count, sz, 1) : CTr::try_deallocate_node(*pool, l.p, sz, 1);
+                    if (!ok2)
+                        O->fail(fmt("composable try_deallocate refused memory the pool handed out (id=%ld)", l.id));
+                    if (l.array)
+                        emit(fmt("pool t_try_dealloc_array %zu %zu %zu 1", R->off(l.p), l.count, sz), ok2 ? "true" : "false", pool_state(*pool));
+                    else
+                        emit(fmt("pool t_try_dealloc_node %zu %zu 1", R->off(l.p), sz), ok2 ? "true" : "false", pool_state(*pool));
+                    ++n_dealloc;
+                    continue;
+                }
                 bool ok = l.array ? pool->try_deallocate_array(l.p, l.count * l.size / ns + (l.count * l.size % ns ? 1 : 0))
                                   : pool->try_deallocate_node(l.p);
                 if (!ok)
@@ -947,14 +975,19 @@ static void run_coll(Rng& g, long nops, std::size_t max_node, std::size_t block_
         {
             std::size_t size = g.chance(94) ? pick_size() : mx + 1 + g.below(8);
             long        up0 = R->n_alloc;
-            void*       p = c->try_allocate_node(size);
+            bool        tr = g.chance(40);
+            std::size_t al = g.chance(80) ? (std::size_t(1) << g.below(5)) : 32;
+            void*       p = tr ? CTr::try_allocate_node(*c, size, al) : c->try_allocate_node(size);
             if (R->n_alloc != up0)
                 O->fail("collection.try_allocate_node grew the collection");
             if (p)
                 add_live(p, false, 1, size, false, "coll.try_allocate_node");
             else
                 ++n_null;
-            emit(fmt("coll try_alloc_node %zu", size), p ? fmt("ok %zu", R->off(p)) : "null", coll_state(*c));
+            if (tr)
+                emit(fmt("coll t_try_alloc_node %zu %zu", size, al), p ? fmt("ok %zu", R->off(p)) : "null", coll_state(*c));
+            else
+                emit(fmt("coll try_alloc_node %zu", size), p ? fmt("ok %zu", R->off(p)) : "null", coll_state(*c));
         }
         else if (k < 39)
         { // traits node with alignment around alignment_for(size)
@@ -1009,14 +1042,21 @@ static void run_coll(Rng& g, long nops, std::size_t max_node, std::size_t block_
         {
             std::size_t size = pick_size(), count = 1 + g.below(5);
             long        up0 = R->n_alloc;
-            void*       p = g.chance(50) ? c->try_allocate_array(count, size) : CTr::try_allocate_array(*c, count, size, 1);
+            bool        tr = g.chance(50);
+            std::size_t al = g.chance(85) ? 1 : 32;
+            if (tr && g.chance(10))
+                count = block_size / size + 1 + g.below(4 * block_size / size + 1); // around / beyond max_array_size
+            void*       p = tr ? CTr::try_allocate_array(*c, count, size, al) : c->try_allocate_array(count, size);
             if (R->n_alloc != up0)
                 O->fail("collection.try_allocate_array grew the collection");
             if (p)
                 add_live(p, true, count, size, false, "coll.try_allocate_array");
             else
                 ++n_null;
-            emit(fmt("coll try_alloc_array %zu %zu", count, size), p ? fmt("ok %zu", R->off(p)) : "null", coll_state(*c));
+            if (tr)
+                emit(fmt("coll t_try_alloc_array %zu %zu %zu", count, size, al), p ? fmt("ok %zu", R->off(p)) : "null", coll_state(*c));
+            else
+                emit(fmt("coll try_alloc_array %zu %zu", count, size), p ? fmt("ok %zu", R->off(p)) : "null", coll_state(*c));
         }
         else if (k < 75)
         { // composable deallocation
@@ -1028,6 +1068,30 @@ static void run_coll(Rng& g, long nops, std::size_t max_node, std::size_t block_
                     continue;
                 live.erase(live.begin() + long(q));
                 O->on_release(l.id, "try_deallocate");
+                if (g.chance(40))
+                { // through composable_allocator_traits; first a variant with an unsupported alignment: rejected, nothing changes
+                    if (g.chance(50))
+                    {
+                        auto before = coll_state(*c);
+                        bool r = l.array ? CTr::try_deallocate_array(*c, l.p, l.count, l.size, 32) : CTr::try_deallocate_node(*c, l.p, l.size, 32);
+                        if (r || coll_state(*c) != before)
+                            O->fail("composable try_deallocate with an alignment the collection does not support was not rejected cleanly");
+                        if (l.array)
+                            emit(fmt("coll t_try_dealloc_array %zu %zu %zu 32", R->off(l.p), l.count, l.size), r ? "true" : "false", coll_state(*c));
+                        else
+                            emit(fmt("coll t_try_dealloc_node %zu %zu 32", R->off(l.p), l.size), r ? "true" : "false", coll_state(*c));
+                    }
+                    std::size_t al = std::size_t(1) << g.below(5);
+                    bool        ok2 = l.array ? CTr::try_deallocate_array(*c, l.p, l.count, l.size, al) : CTr::try_deallocate_node(*c, l.p, l.size, al);
+                    if (!ok2)
+                        O->fail(fmt("composable try_deallocate refused memory the collection handed out (id=%ld)", l.id));
+                    if (l.array)
+                        emit(fmt("coll t_try_dealloc_array %zu %zu %zu %zu", R->off(l.p), l.count, l.size, al), ok2 ? "true" : "false", coll_state(*c));
+                    else
+                        emit(fmt("coll t_try_dealloc_node %zu %zu %zu", R->off(l.p), l.size, al), ok2 ? "true" : "false", coll_state(*c));
+                    ++n_dealloc;
+                    continue;
+                }
                 bool ok = l.array ? c->try_deallocate_array(l.p, l.count, l.size) : c->try_deallocate_node(l.p, l.size);
                 if (!ok)
                     O->fail(fmt("try_deallocate refused memory the collection handed out (id=%ld)", l.id));
